@@ -16,6 +16,7 @@ ANCHOR_FILES = ['/repo/pkg/frame/reader.go', '/repo/pkg/streamwriter/writer.go',
 
 def tasks(tier):
     ts = [Task('verifHarness_C07_window', [n]) for n in ((0, 1, 3) if tier == 'quick' else (0, 1, 2, 3, 8, 64, 255))]
+    ts += [Task('verifHarness_C07_forged', [n]) for n in ((1,) if tier == 'quick' else (0, 1, 3))]
     ts += [Task('verifHarness_C07_history', [k]) for k in ((2,) if tier == 'quick' else (2, 3, 4))]
     ts.append(Task('verifHarness_C07_T', [], {'x25_uf': True, 'bv_as_int_fallback': True, 'inc_timeout_ms': 300, 'timeout_ms': 5000},
                    pkg='pkg/streamwriter'))
@@ -23,12 +24,13 @@ def tasks(tier):
 
 
 def required_reach(tier):
-    return ['C07/W', 'C07/H', 'C07/T']
+    return ['C07/W', 'C07/H', 'C07/T', 'C07/F']
 
 
 def bounds(tier):
     return {'window_step': 'newest-accepted timestamp and incoming timestamp: every pair in [0,2^48)^2 (one inductive step; '
                            'histories of any length follow by induction on the invariant cur = newest accepted, 0 = none)',
+            'forged_frame': 'arbitrary pre-state, a frame with any six signature bytes other than the right ones and any timestamp, then a correctly signed frame: state unchanged by the forged frame',
             'history_crosscheck': 'fresh reader, %s frames with arbitrary timestamps' % ('2' if tier == 'quick' else '2..4'),
             'payload_lengths': [0, 1, 3] if tier == 'quick' else [0, 1, 2, 3, 8, 64, 255],
             'writer_timestamps': 'two consecutive streamwriter writes, clock readings d1 <= d2 arbitrary in [0, 2^48 * 10 us) (years 2015..2104): ts_i = d_i / 10000 and ts2 >= ts1 (udiv monotonicity decided by cvc5 --solve-bv-as-int=sum)'}
